@@ -67,7 +67,7 @@ def run_variants(prop: str, jobs: int = None, verbose=True):
     variants = getattr(mod, "VARIANTS", [])
     if not variants:
         return []
-    jobs = jobs or min(16, os.cpu_count() or 4, max(1, len(variants)))
+    jobs = jobs or 1  # in-memory variants with a parse cache: ~30 ms each, a pool does not pay off
     items = [(prop, i) for i in range(len(variants))]
     if jobs > 1 and len(variants) > 3:
         with ProcessPoolExecutor(max_workers=jobs) as ex:
